@@ -70,9 +70,6 @@ type wnode struct {
 
 // WalkCheck runs the hook-based structural monitors on every open handle.
 func (e *Env) WalkCheck() {
-	if e.S == nil {
-		return
-	}
 	free := gkvlite.VerifFreeNodes()
 	freeRoots := gkvlite.VerifFreeRootNodeLocs()
 	freeLocs := gkvlite.VerifFreeNodeLocs()
@@ -81,6 +78,9 @@ func (e *Env) WalkCheck() {
 		img = e.F.Bytes()
 	}
 	for _, n := range e.M.Live.Names() {
+		if e.S == nil {
+			break
+		}
 		e.walkOne("orig", e.H[n], e.M.Live.Colls[n], free, freeRoots, freeLocs, img)
 		if e.Failed() {
 			return
@@ -289,4 +289,36 @@ func classify(s string) string {
 		}
 	}
 	return "other"
+}
+
+// ReachableItems returns every item cached in a node reachable from any open
+// handle (original, abandoned stores are not included, snapshots).
+func (e *Env) ReachableItems() []*gkvlite.Item {
+	var res []*gkvlite.Item
+	add := func(c *gkvlite.Collection) {
+		if c == nil {
+			return
+		}
+		gkvlite.VerifWalk(c, func(v gkvlite.VerifNode) {
+			if v.Item != nil {
+				res = append(res, v.Item)
+			}
+		})
+	}
+	for _, c := range e.H {
+		add(c)
+	}
+	for _, sn := range e.Snaps {
+		if !sn.Closed {
+			for _, c := range sn.H {
+				add(c)
+			}
+		}
+	}
+	for _, s := range e.closedStores {
+		for _, n := range s.GetCollectionNames() {
+			add(s.GetCollection(n))
+		}
+	}
+	return res
 }
